@@ -13,7 +13,7 @@ CHECKS = {
   technique="runtime monitor: differential byte comparison of decode->encode against a committed don't-care mask list, plus fixed-point and structural re-decode oracles",
   design_ref="DESIGN.md §3 C01, §13"),
  "C02": dict(
-  text="Invariant monitor over the same workload plus 10 k API-built structures (gen/frag: init, fragments, segments with 0-3 sidx, files), 0.5 M structures (quick) / 13 M (thorough): Size before, Encode, Size after, 1-3 Info calls, EncodeSW at capacity +64 and exact capacity, second Encode; lengths, idempotence, tiling of the bytes by the independent walker, and for every node of the library tree size field = Size() = own encoding = its sub-range of the parent.",
+  text="Invariant monitor over the same workload plus 10 k API-built structures (gen/frag: init, fragments, segments with 0-3 sidx, files), 0.5 M structures (quick) / 13 M (thorough): Size before, Encode, Size after, 1-3 Info calls, EncodeSW at capacity +64 and exact capacity, second Encode; lengths, idempotence, tiling of the bytes by the independent walker, and for every node of the library tree size field = Size() = own encoding = its sub-range of the parent. Further families: descriptor size limits and flag lattices (esds, dec3), byte-level readdressed fragments (trun without data_offset, tfhd base offsets), sidx recipes with 64-bit values, and observe-then-mutate histories (UUIDBox relabelling and the public mutators of twelve other box types) with a twin run without observers.",
   note="Encoders returning an error are outside the property; lazy-mdat and segment-mode files get the clauses that apply to what Encode writes.",
   technique="runtime monitor: structural invariants checked on every node of encoded trees against an independent box walker",
   design_ref="DESIGN.md §3 C02, §13"),
@@ -23,17 +23,17 @@ CHECKS = {
   technique="runtime monitor: differential execution of the two decoders and the two encoders with a reflective structural comparator",
   design_ref="DESIGN.md §3 C03, §13"),
  "C04": dict(
-  text="Resource monitor over isolated worker processes: ~32 k (quick) / 2 M (thorough) structure-aware hostile mutants of the whole testdata corpus (plus crafted cross-box layouts) are pushed through every decode path/flag/mode, Info at all levels and both encoders; recovered panics, worker deaths, per-operation CPU (RUSAGE) and bytes allocated (runtime/metrics) are the observations. Held = none of them on the executions listed in evidence.",
+  text="Resource monitor over isolated worker processes: ~32 k (quick) / 2 M (thorough) structure-aware hostile mutants of the whole testdata corpus (plus crafted cross-box layouts) are pushed through every decode path/flag/mode, Info at all levels and both encoders; recovered panics, worker deaths, per-operation CPU (RUSAGE) and bytes allocated (runtime/metrics) are the observations. Held = none of them on the executions listed in evidence. Crafted families besides the mutators: count lattices, field sweeps in file context, inflated sizes, 64-bit headers with short payloads and with sizes >= 2^63, and every box type cut at byte/4-byte boundaries with its size field set to what is left and a trailer with a large leading number behind it.",
   note="Bounds cpu <= 2 s + 20 us/byte and alloc <= 8 MiB + 1 KiB/byte are deliberately loose constants (max observed ratio is in evidence); inputs <= 256 KiB; quadratic cost in nesting depth is a recorded known finding.",
   technique="runtime monitor: fuzz-style hostile workload in sandboxed workers with panic/CPU/allocation oracles",
   design_ref="DESIGN.md §3 C04"),
  "C05": dict(
-  text="History monitor: 30 k (quick) / 1.5 M (thorough) generated API histories (AddFullSample/AddSample/AddSampleInterval..., single and multi-track, optimise on/off, both encoders, extra boxes) with uniquely stamped payloads are encoded, decoded by both paths and read back with GetFullSamples, and independently expanded from the bytes by ref/frag; every sample field is compared with the harness' own ground-truth model.",
+  text="History monitor: 30 k (quick) / 1.5 M (thorough) generated API histories (AddFullSample/AddSample/AddSampleInterval..., single and multi-track, optimise on/off, both encoders, extra boxes) with uniquely stamped payloads are encoded, decoded by both paths and read back with GetFullSamples, and independently expanded from the bytes by ref/frag; every sample field is compared with the harness' own ground-truth model. Histories include long uniform runs, caller-owned payload slices that are poisoned after the call, and observer calls (Size, Info, Encode while no optimisation is requested) between additions.",
   note="Trusts the harness model of decode-time accumulation and ref/frag's reading of ISO/IEC 14496-12 8.8; mixed full/metadata-only fragments are outside the documented API and not generated.",
   technique="runtime monitor: recorded API histories with unique payload stamps checked against a reference model and an independent byte-level reader",
   design_ref="DESIGN.md §3 C05"),
  "C06": dict(
-  text="Round-trip monitor: 5.5 k (quick) / 250 k (thorough) generated clear single-track CMAF files (AVC/HEVC from own serializers, audio, the repo's real streams; NAL size classes around every threshold, extra uuid/unknown/free boxes, pssh; keys, 8/16-byte IVs incl. counter wrap, cenc/cbcs) go through the library protocol and the mp4ff-encrypt/mp4ff-decrypt binaries; decrypted output compared sample-by-sample and box-by-box (independent walker/readers) with the same-mode re-encode of the clear input; third-party clause on the repo's encrypted files with right and wrong keys.",
+  text="Round-trip monitor: 5.5 k (quick) / 250 k (thorough) generated clear single-track CMAF files (AVC/HEVC from own serializers, audio, the repo's real streams; NAL size classes around every threshold, extra uuid/unknown/free boxes, pssh; keys, 8/16-byte IVs incl. counter wrap, cenc/cbcs) go through the library protocol and the mp4ff-encrypt/mp4ff-decrypt binaries; decrypted output compared sample-by-sample and box-by-box (independent walker/readers) with the same-mode re-encode of the clear input; third-party clause on the repo's encrypted files with right and wrong keys. Also: multi-track files, key rotation through one DecryptInfo, byte-level rewritten clear inputs (defaults in trex only), extra moov children, EncodeSW into caller-owned storage on either side, and sinf moved in front of the other sample-entry children.",
   note="Baseline is the clear input after the same plain encode cycles; trun data_offset is checked semantically through the sample bytes; documented refusals (avc3/hev1 with -init, multi-trun) are counted, not judged.",
   technique="runtime monitor: generated inputs with ground truth through library and tool paths, conservation/identity oracle on output bytes",
   design_ref="DESIGN.md §3 C06"),
@@ -43,12 +43,12 @@ CHECKS = {
   technique="runtime monitor: byte-level invariant checks and differential comparison with an independent reference cipher",
   design_ref="DESIGN.md §3 C07"),
  "C08": dict(
-  text="Differential monitor: the repo's files plus 2 k (quick) / 100 k (thorough) generated progressive files (compact and 64-bit mdat headers, mdat before/after moov) decoded in both modes; trees, sizes, Info dumps compared, and ReadData/CopyData/CopySampleData for all small ranges, boundary+random larger ranges and all work-buffer sizes compared with the file bytes themselves; lazy mdat Encode = header only.",
+  text="Differential monitor: the repo's files plus 2 k (quick) / 100 k (thorough) generated progressive files (compact and 64-bit mdat headers, mdat before/after moov) decoded in both modes; trees, sizes, Info dumps compared, and ReadData/CopyData/CopySampleData for all small ranges, boundary+random larger ranges and all work-buffer sizes compared with the file bytes themselves; lazy mdat Encode = header only. Further families: generated fragmented files (as built and reshaped) with all four encode modes compared mode against mode, giant and >4 GiB stretched files behind virtual readers, eight reader kinds (short reads, data+EOF, base offsets, os.File), readers not positioned at offset 0, the box-level DecodeBoxLazyMdat loop, Info at five level specs, held lazy read results.",
   note="Ground truth for every range is the input file's own bytes; sample ranges come from the independent table expansion (ref/stbl).",
   technique="runtime monitor: differential execution of the two mdat modes against ground-truth file bytes",
   design_ref="DESIGN.md §3 C08"),
  "C09": dict(
-  text="Reference-model monitor: 3 k (quick) / 120 k (thorough) generated sample-table sets (run-length stts/ctts, multi-entry stsc, stsz uniform/explicit, stco/co64, stss, sdtp), installed via builders and via encode->decode; every query for every sample number, every interval (N<=48 exhaustive) and every time is compared with the naive per-sample expansion computed by ref/stbl from the encoded bytes.",
+  text="Reference-model monitor: 3 k (quick) / 120 k (thorough) generated sample-table sets (run-length stts/ctts, multi-entry stsc, stsz uniform/explicit, stco/co64, stss, sdtp), installed via builders and via encode->decode; every query for every sample number, every interval (N<=48 exhaustive) and every time is compared with the naive per-sample expansion computed by ref/stbl from the encoded bytes. Plus tables-only cases with up to 2^32-byte uniform samples (expectations in math/big), zero-count and entry_count==sample_count table shapes, and results held across later queries.",
   note="Reference semantics from ISO/IEC 14496-12 8.6/8.7 and the doc comments (GetSampleNrAtTime = 1 + samples starting before t); GetSampleDescriptionID only on single-id tables.",
   technique="runtime monitor: exhaustive query sweep against a naive reference expansion of the tables",
   design_ref="DESIGN.md §3 C09"),
@@ -63,7 +63,7 @@ CHECKS = {
   technique="runtime monitor: black-box tool runs on generated inputs, conservation oracle over independently expanded output bytes",
   design_ref="DESIGN.md §3 C11"),
  "C12": dict(
-  text="Layout monitor: 5 k (quick) / 250 k (thorough) generated fragmented files (styp/sidx/mfra/emsg layouts x decode flags) with ground-truth byte positions; oracles: every moof/mdat in exactly one segment/fragment with true StartPos (strong boundary form for single-mechanism layouts), byte-identical re-encode in segment mode, and sidx tiling after UpdateSidx / the add-sidx binary read back from bytes by ref/frag.",
+  text="Layout monitor: 5 k (quick) / 250 k (thorough) generated fragmented files (styp/sidx/mfra/emsg layouts x decode flags) with ground-truth byte positions; oracles: every moof/mdat in exactly one segment/fragment with true StartPos (strong boundary form for single-mechanism layouts), byte-identical re-encode in segment mode, and sidx tiling after UpdateSidx / the add-sidx binary read back from bytes by ref/frag. Four input families: as built, byte-level reshaped (multi-trun, multi-traf, gaps), with inserted senc/saiz/saio boxes (add-sidx -removeEnc), and stretched to 1-20 GiB behind a virtual reader in lazy mode.",
   note="Mixed delimiter layouts get only the weak grouping form (the statement does not say how mechanisms combine); durations/EPT from the harness model.",
   technique="runtime monitor: generated layouts with known byte positions, invariant oracles over decoded partition and over sidx parsed from output bytes",
   design_ref="DESIGN.md §3 C12"),
